@@ -181,6 +181,7 @@ def valid_context(rng, entry):
         call['threshold'] = 0.5
         call['comp_op'] = rng.choice(['>=', '<', '!='])
     elif entry == 'profile':
+        L.pop('dup_label', None)
         call = {'api': 'profile', 'ltable': L, 'profile_attrs': rng.choice([None, ['lattr'], ['lid', 'lattr']])}
     return call
 
@@ -468,6 +469,7 @@ def accept_case(case, rec, ssj):
         # either table (different column names), with the attribute list given, None, or omitted
         side = rng.choice('lr')
         tbl = L if side == 'l' else R
+        tbl.pop('dup_label', None)
         call = {'api': 'profile', 'ltable': tbl}
         r = rng.random()
         if r < 0.3:
